@@ -254,6 +254,12 @@ BatchViol(x, batches) ==
                   \* issued on the queue after the batch: b.tp is the largest such truncate position
               IN present # {} /\ ~(\E k \in 1..n : present = k..n /\ \A j \in 1..(k - 1) : b.recs[j][1] <= b.tp)}}
 
+(* after a crash or damage the positions of lost batches are assigned again: a batch none of whose   *)
+(* records was recovered is dropped from the list, or a later record that happens to equal one of  *)
+(* its records (same position, both empty) would be read as a piece of it                          *)
+PruneBatches(batches, x) ==
+  SelectSeq(batches, LAMBDA b : x[b.q].a /\ \E j \in 1..Len(b.recs) : \E k \in 1..Len(x[b.q].recs) : x[b.q].recs[k] = b.recs[j])
+
 BatchOf(qm, call) ==
   LET qs == qm[call.q]
       start == AppendStart(qs, call)
@@ -319,6 +325,24 @@ DamageViol(r, c) ==
  \cup (IF r.out = "ok" /\ r.accpanic = 0 THEN
           LET x == StAbs(r.st, c.nq) IN
                (IF r.cls \in {"payload", "crc", "hdr", "noise", "embed"} THEN Tag("C08", NonGenuine(r.st, c)) ELSE {})
+               \* damage, then a crash inside a later append: the record of that append counts as appended;
+               \* a record with the in-flight record's queue, position and length but another content is a
+               \* splice of its first frame with a stale continuation frame (finding D10 when the damage was
+               \* a zeroed header, which is the end-of-log marker)
+          \cup (IF r.cls = "dmgcrash" THEN
+                  LET inrec == <<r.inflight[2], r.inflight[3], r.inflight[4]>>
+                      c2 == [c EXCEPT !.batches = Append(@, [q |-> r.inflight[1], tp |-> -1, recs |-> <<inrec>>])]
+                      spliced == \E i \in 1..Len(r.st.qs) : r.st.qs[i].q = r.inflight[1] /\
+                                   \E j \in 1..Len(r.st.qs[i].recs) :
+                                      LET g == r.st.qs[i].recs[j] IN g[1] = inrec[1] /\ g[3] = inrec[3] /\ g[2] # inrec[2] /\ ~Genuine(r.inflight[1], g, c)
+                      others == {m \in NonGenuine(r.st, c2) : m # "recovered record was never appended"}
+                      never == {m \in NonGenuine(r.st, c2) : m = "recovered record was never appended"}
+                  IN Tag("C08", others \cup
+                       (IF never = {} THEN {}
+                        ELSE IF spliced THEN {"recovered record is a splice of the first frame of an append cut short by a crash and a stale continuation frame behind the point where " \o
+                                              (IF r.dmgkind = "zerohdr" THEN "a zeroed frame header (the end-of-log marker) ended the log" ELSE "damage (" \o r.dmgkind \o ") ended the log")}
+                        ELSE never))
+                ELSE {})
           \cup (IF single THEN Tag("C09", LostViol(x, c, r.hit)) ELSE {})
           \cup (IF r.cls \in {"payload", "crc", "hdr"} THEN Tag("C12", BatchViol(x, c.batches)) ELSE {})
         ELSE IF single THEN {<<"C09", "open failed after single-frame payload/CRC damage: " \o r.out>>}
@@ -554,9 +578,9 @@ TrCrash ==
                   sub == [c EXCEPT !.qm = x, !.asg = asg3, !.cur = NoCall,
                                    !.pendP = << [st |-> x, op |-> NoCall] >>, !.pendW = << [st |-> x, op |-> NoCall] >>,
                                    !.crashfree = FALSE, !.sub = TRUE, !.subprops = props,
-                                   !.batches = IF incall /\ c.cur.op = "append" /\ ~IsRejectOrNoop(c.qm, c.cur)
-                                               THEN Append(@, BatchOf(c.qm, c.cur))
-                                               ELSE IF incall THEN TruncBatches(@, c.cur) ELSE @]
+                                   !.batches = PruneBatches(IF incall /\ c.cur.op = "append" /\ ~IsRejectOrNoop(c.qm, c.cur)
+                                                            THEN Append(@, BatchOf(c.qm, c.cur))
+                                                            ELSE IF incall THEN TruncBatches(@, c.cur) ELSE @, x)]
               IN /\ saved' = c
                  /\ ctx' = WithPrev(sub, R.st)
            ELSE UNCHANGED <<ctx, saved>>
@@ -573,7 +597,8 @@ TrDamage ==
                   sub == [c EXCEPT !.qm = x, !.asg = [q \in QIds(c) |-> IF x[q].a THEN x[q].next - 1 ELSE -1],
                                    !.cur = NoCall,
                                    !.pendP = << [st |-> x, op |-> NoCall] >>, !.pendW = << [st |-> x, op |-> NoCall] >>,
-                                   !.crashfree = FALSE, !.sub = TRUE, !.subprops = {"C09"}]
+                                   !.crashfree = FALSE, !.sub = TRUE, !.subprops = {"C09"},
+                                   !.batches = PruneBatches(@, x)]
               IN /\ saved' = c
                  /\ ctx' = WithPrev(sub, R.st)
            ELSE UNCHANGED <<ctx, saved>>
